@@ -172,13 +172,18 @@ Add(b) == /\ AdminOn /\ b \notin SeqToSet(order)
           /\ evs' = <<[ev |-> "add", b |-> b]>>
           /\ UNCHANGED <<strat, rr, probe>>
 
+RemoveEff(b) ==
+  /\ LET i == CHOOSE j \in DOMAIN order : order[j] = b
+         last == order[Len(order)]
+         o1 == [order EXCEPT ![i] = last]
+     IN order' = SubSeq(o1, 1, Len(order) - 1)
+  /\ evs' = <<[ev |-> "remove", b |-> b]>>
+  /\ UNCHANGED <<strat, flag, age, pfail, rr, cw, infl, probe, mirror>>
+
+\* (the generator only removes idle backends and never the last one; the code has no such restriction, and the
+\* trace specification uses RemoveEff directly)
 Remove(b) == /\ AdminOn /\ b \in SeqToSet(order) /\ Len(order) > 1 /\ infl[b] = 0
-             /\ LET i == CHOOSE j \in DOMAIN order : order[j] = b
-                    last == order[Len(order)]
-                    o1 == [order EXCEPT ![i] = last]
-                IN order' = SubSeq(o1, 1, Len(order) - 1)
-             /\ evs' = <<[ev |-> "remove", b |-> b]>>
-             /\ UNCHANGED <<strat, flag, age, pfail, rr, cw, infl, probe, mirror>>
+             /\ RemoveEff(b)
 
 \* operations that must fail (or be no-ops) and change nothing: adding a name that is already
 \* configured, an unparsable address, an unknown strategy, removing an absent name
